@@ -302,6 +302,7 @@ def run(ctx):
     purge_fails_probe(ctx)
     custom_label_probe(ctx)
     other_database_probe(ctx)
+    split_batches_probe(ctx)
     # ---- fixed witness of the Lean counterexample C08_cex_mark_then_install ---------------------
     evorig.fresh_databases()
     evorig.clear_evolutions()
@@ -471,6 +472,43 @@ def other_database_probe(ctx):
         ctx.fail(None, p_, {'history': steps})
     evorig.install_models({'apps': []})
     evorig.clear_evolutions()
+
+
+def split_batches_probe(ctx):
+    """an app's pending evolutions fall into two evolution batches with a migration of another app between them, and
+    the later batch has no SQL for the app (tools/vlib/c08_worker.py, own process: the project has a migration-managed
+    app): every evolution's SQL runs once, both labels are recorded once"""
+    import json
+    import os
+    import subprocess
+    import sys
+    import tempfile
+    here = os.path.dirname(os.path.dirname(os.path.abspath(__file__)))
+    fd, out = tempfile.mkstemp(prefix='devo-c08-', suffix='.json')
+    os.close(fd)
+    try:
+        p = subprocess.run([sys.executable, '-B', os.path.join(here, 'c08_worker.py'), out],
+                           stdout=subprocess.PIPE, stderr=subprocess.STDOUT, timeout=max(60, ctx.time_left()))
+        if p.returncode != 0:
+            raise RuntimeError('C08 worker failed: %s' % p.stdout.decode()[-600:])
+        r = json.load(open(out))
+    finally:
+        if os.path.exists(out):
+            os.unlink(out)
+    ctx.count('split_batches_probe:%s' % r['outcome'])
+    rep = {'scenario': 'evolutions of one app in two batches around a migration of another app', 'observed': r}
+    ctx.case({'scenario': rep['scenario'], 'order': r['order']}, nontrivial=True, sample_cap=1)
+    if r['baseline'] != 'ok' or r['outcome'] != 'ok':
+        ctx.fail(None, 'the upgrade whose evolutions are split around a migration fails: %s' % (r['error'] or r['baseline']), rep)
+        return
+    if r['update_statements'] != 1 or r['prices'] != [500]:
+        ctx.fail(None, 'the SQL of one evolution ran %d times in one completed run (stored value %s, expected [500])'
+                 % (r['update_statements'], r['prices']), rep)
+    if r['recorded'] != ['bin_note', 'price_in_cents']:
+        ctx.fail(None, 'recorded evolutions %s, expected each of the two labels once' % r['recorded'], rep)
+    evs = [x for x in r['order'] if x[0] == 'applying_evolution' and x[1] == 'vapp']
+    if len(evs) != 1:
+        ctx.fail(None, 'applying_evolution was sent %d times for the app although one batch had SQL for it' % len(evs), rep)
 
 
 def purge_fails_probe(ctx):
